@@ -1,3 +1,176 @@
 import Driver.Common
-/- stub: model driver for C11 not built yet -/
-def main : IO Unit := Driver.lineLoop (fun _ => "unimplemented")
+import Driver.GenVL
+import ThriftVerif.Lib.Plugin
+import ThriftVerif.Gen.Std
+import ThriftVerif.Generated.C11Schema
+/-
+  tv_c11: runs the C11 model on the harness' op lines.
+
+  mar <sidx> <hexbytes> <VL value>   model `write` vs the implementation's Marshal bytes (up to map order)
+  unm <sidx> <hexbytes>              model `read` on the implementation's bytes, printed canonically
+  cmp <tree>                         compress, then decompress on the plugin side
+  apt <hexdata> <feature>            appendDataTrailer, hasDataTrailerFeature on the result
+  has <hexdata> <feature>            hasDataTrailerFeature
+  ver <hex>                          supportDataTrailer
+  pca <hex>                          ParseCompactArguments + Pack
+  exe <run> <decoded> <err> <feedok> <stderr> <nwarn> <ncontents>   executeOutcome
+-/
+namespace Driver.C11
+open Wire Gen Gen.Std Plugin Driver.GenVL
+
+def prog : Prog := Generated.C11.prog
+
+/-! canonical form of wire values: map entries sorted by their encoded key -/
+
+def bytesLe : Bytes → Bytes → Bool
+  | [], _ => true
+  | _ :: _, [] => false
+  | a :: x, b :: y => if a < b then true else if b < a then false else bytesLe x y
+
+def insPair (p : Bytes × (WVal × WVal)) : List (Bytes × (WVal × WVal)) → List (Bytes × (WVal × WVal))
+  | [] => [p]
+  | q :: r => if bytesLe p.1 q.1 then p :: q :: r else q :: insPair p r
+
+mutual
+partial def canonW : WVal → WVal
+  | .struct fs => .struct (fs.map fun (i, v) => (i, canonW v))
+  | .map kt vt kvs =>
+      let kvs' := kvs.map fun (k, v) => (canonW k, canonW v)
+      let keyed := kvs'.map fun (k, v) => (encW k, (k, v))
+      .map kt vt ((keyed.foldr insPair []).map (·.2))
+  | .set et xs => .set et (xs.map canonW)
+  | .list et xs => .list et (xs.map canonW)
+  | w => w
+end
+
+def firstDiff : Bytes → Bytes → Nat → Nat
+  | a :: x, b :: y, i => if a = b then firstDiff x y (i + 1) else i
+  | _, _, i => i
+
+def fnv (s : String) : Nat :=
+  s.toList.foldl (fun h c => ((h ^^^ c.toNat) * 1099511628211) % 18446744073709551616) 14695981039346656037
+
+/-- long dumps are compared by length and FNV-1a hash (same rule in the Go harness) -/
+def clip (s : String) : String :=
+  if s.length ≤ 6000 then s else s!"H{fnv s} {s.length}"
+
+def doMar (sidx : Nat) (impl : Bytes) (v : GoVal) : String :=
+  match toW prog (.struct sidx) v with
+  | .err => "model-err"
+  | .panic => "model-panic"
+  | .ok w =>
+    match decW (impl.length + 1) .struct impl with
+    | none => "impl-bytes-undecodable"
+    | some (w', rest) =>
+      if !rest.isEmpty then s!"impl-trailing-bytes {rest.length}"
+      else if encW w' != impl then "impl-bytes-not-canonical"
+      else
+        let a := encW (canonW w)
+        let b := encW (canonW w')
+        if a == b then s!"ok {a.length}"
+        else s!"differ at {firstDiff a b 0} model-len {a.length} impl-len {b.length}"
+
+def doUnm (sidx : Nat) (bs : Bytes) : String :=
+  match Gen.Std.read prog sidx bs with
+  | none => "err"
+  | some v => "ok " ++ clip (showVal prog (.struct sidx) v)
+
+/-! trees: `N <hexfn> <nkids> kids…` -/
+
+mutual
+partial def parseTree : List String → Option (Tree × List String)
+  | "N" :: fn :: n :: r => do
+      let f ← VL.hexDecode fn
+      let k ← n.toNat?
+      let (ks, r) ← parseTrees k r
+      some (.node f ks, r)
+  | _ => none
+partial def parseTrees : Nat → List String → Option (List Tree × List String)
+  | 0, r => some ([], r)
+  | n+1, r => do
+      let (t, r) ← parseTree r
+      let (ts, r) ← parseTrees n r
+      some (t :: ts, r)
+end
+
+partial def showTree : Tree → String
+  | .node fn ks => s!"N {VL.hexEncode fn} {ks.length}" ++ String.join (ks.map fun k => " " ++ showTree k)
+
+def doCmp (t : Tree) : String :=
+  let c := (compress t).1
+  let fuel := t.size + 2
+  let d := match decompress fuel none c with
+    | .ok t' => "ok " ++ showTree t'
+    | .panic => "panic"
+    | .fuel => "fuel"
+  clip (showTree c) ++ " | " ++ clip d
+
+def hexList (l : List Bytes) : String := " ".intercalate (l.map VL.hexEncode)
+
+def doPca (s : Bytes) : String :=
+  match parseCompact s with
+  | none => "err"
+  | some (name, opts) =>
+    if opts.isEmpty then s!"ok {VL.hexEncode name} 0"
+    else s!"ok {VL.hexEncode name} {opts.length} {hexList (pack opts)}"
+
+def mkWarn (n : Nat) : List Bytes := (List.range n).map fun i => [119, i]
+def mkGen (n : Nat) : List Plugin.Generated := (List.range n).map fun i => { content := [i], name := some [i], point := none }
+
+def doExe (toks : List String) : String :=
+  match toks with
+  | [run, dec, err, feed, se, nw, nc] =>
+    let r : Option RunResult := match run with
+      | "kill" => some .killed
+      | "nostart" => some .notStarted
+      | s => (s.drop 1).toNat?.map .exited
+    match r, nw.toNat?, nc.toNat? with
+    | some r, some nw, some nc =>
+      let res : Response := { error := (match err with | "none" => none | "empty" => some [] | _ => some [101]),
+                              contents := mkGen nc, warnings := mkWarn nw }
+      let decoded := if dec == "1" then some res else none
+      let stderr : Bytes := if se == "1" then [115] else []
+      match executeOutcome (fun _ => feed == "1") r decoded [111] stderr [69] [110] with
+      | .fail shown => s!"fail {shown.length}"
+      | .ok fed shown => s!"ok {fed.length} {shown.length}"
+    | _, _, _ => "bad-op"
+  | _ => "bad-op"
+
+def handleLine (line : String) : String :=
+  match VL.toks line with
+  | "mar" :: sidx :: hex :: rest =>
+    match sidx.toNat?, VL.hexDecode hex, parseVal rest with
+    | some i, some bs, some (v, []) => doMar i bs v
+    | _, _, _ => "bad-op"
+  | ["unm", sidx, hex] =>
+    match sidx.toNat?, VL.hexDecode hex with
+    | some i, some bs => doUnm i bs
+    | _, _ => "bad-op"
+  | "cmp" :: rest =>
+    match parseTree rest with
+    | some (t, []) => doCmp t
+    | _ => "bad-op"
+  | ["apt", hex, f] =>
+    match VL.hexDecode hex, f.toNat? with
+    | some d, some f =>
+      let a := appendDataTrailer d f
+      s!"{VL.hexEncode a} {VL.boolStr (hasDataTrailerFeature a f)}"
+    | _, _ => "bad-op"
+  | ["has", hex, f] =>
+    match VL.hexDecode hex, f.toNat? with
+    | some d, some f => VL.boolStr (hasDataTrailerFeature d f)
+    | _, _ => "bad-op"
+  | ["ver", hex] =>
+    match VL.hexDecode hex with
+    | some v => VL.boolStr (supportDataTrailer v)
+    | none => "bad-op"
+  | ["pca", hex] =>
+    match VL.hexDecode hex with
+    | some s => doPca s
+    | none => "bad-op"
+  | "exe" :: rest => doExe rest
+  | _ => "bad-op"
+
+end Driver.C11
+
+def main : IO Unit := Driver.lineLoop Driver.C11.handleLine
